@@ -48,3 +48,13 @@ pub use handles::{AsyncCache, Cache};
 pub use listener::{EvictionListener, EvictionReason};
 pub use metrics::MetricsSnapshot;
 pub use runtime::TaskSpawner;
+
+/// Verification-only entry points (compiled only under `--cfg excsn_fibre_verif`).
+#[cfg(excsn_fibre_verif)]
+pub mod verif {
+  /// Freezes (or unfreezes) the real-time component of the cache clock: while frozen the
+  /// cache's notion of "now" is exactly `fibre::verif::clock_offset_nanos()`.
+  pub fn freeze_clock(on: bool) {
+    crate::time::VERIF_FROZEN.store(on, std::sync::atomic::Ordering::SeqCst);
+  }
+}
